@@ -21,7 +21,9 @@ impl Labels {
 	fn get_or_add_unchecked(&mut self, pc: u16) -> &mut Label {
 		self.labels.entry(pc).or_insert_with(|| {
 			let label = Label { id: self.max_id };
-			self.max_id += 1;
+			// There are at most 65536 distinct bytecode offsets (0..=65535, the last one only as an exclusive end), so the ids 0..=65535
+			// are never handed out twice; the counter itself may wrap after the last possible label instead of overflowing.
+			self.max_id = self.max_id.wrapping_add(1);
 			label
 		})
 	}
